@@ -26,5 +26,7 @@ verus! {
 //@include_subst ghost_lm_dead.rs u8=char
 //@include_subst ghost_lm_opt_core.rs u8=char
 //@include ghost_lm_opt_cw.rs
+//@include_subst ghost_lf.rs u8=char
+//@include_subst ghost_c04.rs u8=char
 } // verus!
 fn main() {}
